@@ -44,8 +44,11 @@ asserted about the choice itself, the model only needs *a* successor state):
   * cascading kills skip avatars (indra behaviour, tests/proxy test_hierarchy_avatar_not_killed): the seated avatar
     stays, still naming the killed local as parent (an orphan of it);
   * an update that moves a known object to a region handle that is not tracked leaves a "limbo" object in the session's
-    full-ID index only (tests/proxy test_object_moved_to_bad_region, "same as indra"): for limbo objects the oracle does
-    not assert membership of the full-ID / avatar indices; it does require that handlers keep working on them and that
+    full-ID index only (tests/proxy test_object_moved_to_bad_region, "same as indra"): the oracle requires exactly
+    that -- the regionless object stays in the session's full-ID index (same LocalID / RegionHandle as last announced,
+    counted by len / all_objects) although no region state owns it and the harness holds no reference to it (no Object is
+    kept between events; gc.collect() before the oracle in such states); membership of the avatar view is not asserted
+    for it.  It also requires that handlers keep working on them and that
     they are properly tracked again when an update brings them back to a tracked region, and that they are gone
     from every index once the region whose handle they claim is marked dead (tracked at that moment or not);
   * which update "answers" a request: a full/compressed update for (region, local) answers ``request_objects``,
@@ -91,6 +94,7 @@ evidence (``coverage.searches``).
 """
 from __future__ import annotations
 
+import gc
 import os
 from typing import Any, Dict, List, Optional
 
@@ -539,6 +543,10 @@ class Harness:
                                      "detail": f"event {list(ev)}: {x['detail']}"})
             w.futs = [x for x in w.futs if not x["fut"].done()]
             return
+        if m.limbo:
+            # nothing outside the library may keep a regionless object alive while the oracle looks
+            # (a full collection on every step would dominate the run; only these states depend on it)
+            gc.collect()
         self.oracle(w, ev, exp, site, prior_futs)
         w.futs = [x for x in w.futs if not x["fut"].done()]
 
@@ -616,7 +624,20 @@ class Harness:
             so = sess.lookup_fullid(wh.FULLS[f])
             mo = m.objs.get(f)
             if f in m.limbo:
-                continue            # not asserted (see module docstring)
+                # announced, never killed, moved to a handle that is not tracked: the library's documented (and tested)
+                # choice is to keep it as a regionless entry of the session-wide index -- it must still be there, as the
+                # same record, when nobody but the library holds on to it (the harness keeps no Object between events)
+                lo = m.limbo[f]
+                if so is None:
+                    bad("full-index-vs-model", site,
+                        f"F{f} was moved to untracked region {lo['r']} (local {lo['l']}) and never killed, but the "
+                        f"session lookup_fullid no longer knows it")
+                elif (so.RegionHandle, so.LocalID) != (wh.HANDLES[lo["r"]], lo["l"]):
+                    bad("full-index-vs-model", site,
+                        f"F{f} (regionless, last announced as local {lo['l']} of region {lo['r']}) is indexed with "
+                        f"LocalID={so.LocalID} RegionHandle={so.RegionHandle}")
+                so = None
+                continue
             if (so is None) != (mo is None):
                 bad("full-index-vs-model", site,
                     f"F{f}: model {'live at %r' % (mo,) if mo else 'not tracked'}, session lookup_fullid gives "
@@ -635,10 +656,11 @@ class Harness:
                     bad("lookup-agreement", site,
                         f"F{f}: lookup_fullid and lookup_localid({mo['l']}) in region {mo['r']} return different "
                         f"Object instances (full-ID side LocalID={so.LocalID} RegionHandle={so.RegionHandle})")
-        if not m.limbo:
-            n_all = len(list(sess.all_objects))
-            if n_all != len(m.objs) or len(sess) != len(m.objs):
-                bad("full-index-vs-model", site, f"session tracks {n_all} objects, model {len(m.objs)}")
+        n_all = len(list(sess.all_objects))
+        n_model = len(m.objs) + len(m.limbo)
+        if n_all != n_model or len(sess) != n_model:
+            bad("full-index-vs-model", site,
+                f"session tracks {n_all} objects, model {len(m.objs)} live + {len(m.limbo)} regionless")
         if len(w.violations) > n0:
             return      # the set of tracked objects is already wrong: link/orphan/future findings would be consequences
         # -- parent/child links and the orphan table
